@@ -267,11 +267,16 @@ def rule_r3(ctx):
     # a bare IPv6 address in X-Forwarded-For gets its brackets - and only that: the hop is wrapped when it holds a ':' and no
     # '.' and does not already end in ']' (an `a.b.c.d:port` hop wrapped as well keeps its port inside the address)
     nwrap = 0
-    for nd, c in find_calls(gcf, lambda c: isinstance(c.func, ast.Attribute) and c.func.attr == "append" and len(c.args) == 1):
-        tpl = str_template(c.args[0])
-        if tpl is None or template_text(tpl, names=False) != "[{}]":
+    wraps = []
+    for nd in gcf.nodes:
+        if nd.ast is None or nd.kind not in ("stmt", "branch", "test"):
             continue
-        x = [q for q in tpl if not isinstance(q, str)][0][1]
+        for e in ast.walk(nd.ast):
+            if isinstance(e, (ast.JoinedStr, ast.BinOp, ast.Call)):
+                tpl = str_template(e)
+                if tpl is not None and template_text(tpl, names=False) == "[{}]":
+                    wraps.append((nd, [q for q in tpl if not isinstance(q, str)][0][1]))
+    for nd, x in wraps:
         nwrap += 1
         gs = guards_of(gcf, nd)
 
